@@ -20,9 +20,27 @@ def run(chk, recorder="prefix-record", tag="c08"):
     # indicators: initialised with a candle and fed that candle (values constant up to rounding, signals constant while the
     # values are bit-constant); k extra leading copies do not change the later results
     if recorder == "prefix-record":
-        for i in range(4 if quick else 16):
-            tf = os.path.join(wd, "ind_%d.ndjson" % i)
-            n = lines_of(run_harness(yv, ["ind-prefix-record", chk.seed * 100 + i, 3 if quick else 6, 80 if quick else 300, tf]))[0]["events"]
+        # indicators with an open known finding on their SIGNALS get their own traces: values on random programs, signals on the
+        # recorded witness (so the finding does not cut short the validation of the others, and is observed on every run)
+        special = {k["key"].split(":")[0]: k for k in chk.known if k.get("status", "open") == "open" and k["key"].endswith(":prehistory:signals")}
+        os.environ["YV_EXCLUDE"] = ",".join(sorted(special))
+        try:
+            for i in range(4 if quick else 16):
+                tf = os.path.join(wd, "ind_%d.ndjson" % i)
+                n = lines_of(run_harness(yv, ["ind-prefix-record", chk.seed * 100 + i, 3 if quick else 6, 80 if quick else 300, tf]))[0]["events"]
+                jobs.append((tf, n))
+        finally:
+            os.environ["YV_EXCLUDE"] = ""
+        for name, kf in special.items():
+            os.environ["YV_PREFIX_NOSIG"] = "1"
+            try:
+                tf = os.path.join(wd, "ind_values_%s.ndjson" % name)
+                n = lines_of(run_harness(yv, ["ind-prefix-record", chk.seed * 100 + 50, 12 if quick else 48, 80 if quick else 300, tf, name]))[0]["events"]
+                jobs.append((tf, n))
+            finally:
+                os.environ.pop("YV_PREFIX_NOSIG", None)
+            tf = os.path.join(wd, "ind_witness_%s.ndjson" % name)
+            n = lines_of(run_harness(yv, ["ind-prefix-record", kf["witness_seed"], 12, 30, tf, name]))[0]["events"]
             jobs.append((tf, n))
 
     def val(job):
@@ -39,8 +57,10 @@ def run(chk, recorder="prefix-record", tag="c08"):
             start = max(i for i in range(k + 1) if evs[i]["ev"] == "pre_new")
             p = evs[start]
             phase = "constant" if evs[k]["ev"] == "pre_const" else "later-outputs"
-            if p.get("class") == "ind" and "s" in evs[k] and evs[k]["ev"] == "pre_pair" and evs[k]["s"] != evs[k]["sk"]:
-                phase = "later-signals"
+            if p.get("class") == "ind" and "s" in evs[k]:
+                first = evs[start + 1]
+                if (evs[k]["ev"] == "pre_pair" and evs[k]["s"] != evs[k]["sk"]) or (evs[k]["ev"] == "pre_const" and evs[k]["s"] != first.get("s")):
+                    phase = "signals"
             chk.finding("%s:prehistory:%s" % (p["subject"], phase), {"stage": "B:trace", "trace": job[0], "program": p,
                                                                     "rejected_at": info, "step_in_program": k - start})
     chk.cov["traces_validated_against_impl"] += len(jobs)
